@@ -17,6 +17,30 @@ CHECKS = {
             "held on the histories explored, not a proof.",
             "Trusted: the 40-line sorted-list model; priorities without NaN.",
             "3/C09"),
+    'C05': ("trace monitor: per-routine shadow expectation of logical time checked at "
+            "every resumption inside the program interpreter; RT under injected jitter "
+            "(sys.monitoring random yields, oversleeping clock waits, lock-holding "
+            "thread, burners); NRT monotonicity/elapsed-time checks",
+            "Runtime monitoring of seeded random routine programs on the real clocks in "
+            "both modes; logical seconds are compared bit-for-bit (SystemClock/AppClock) "
+            "or within 1e-9 relative (TempoClock conversions). Held on the programs and "
+            "schedules observed; jitter actually observed is reported.",
+            "Trusted: the interpreter's shadow arithmetic (vf/prog.py), CPython float "
+            "semantics, host wall clock not stepping (HostWatch).",
+            "3/C05"),
+    'C08': ("trace monitor over wake-ups vs priority-queue model with interval semantics; "
+            "stress from concurrent scheduler threads with sys.monitoring random-yield "
+            "injection; adaptive park-one sweep over statements of clock loops and "
+            "scheduling functions; clear/stop scenarios; lock-discipline monitor on the "
+            "clock queues",
+            "Runtime monitoring of the real clock threads: exactly-once, not-early, order "
+            "with ties, re-scheduling time, bounded progress (3 s park / 6 s stress with "
+            "decoy deadlines one hour ahead), cancellation, survival of raising tasks, and "
+            "main-lock ownership at every queue access. Single-preemption sweep plus random "
+            "multi-preemption stress; not all interleavings.",
+            "Trusted: the offline checker; physical-time verdicts only when the host "
+            "watchdog saw < 0.5-1 s starvation and no wall-clock step.",
+            "3/C08"),
 }
 
 NOT_YET = "check not built yet in this session (work in progress); runtime monitoring is applicable"
